@@ -158,16 +158,21 @@ def c19(P, clnt):
                      "bounds": f"Ufs on the model file system through Srv.NewConn: two Twalks from one shared fid{' + a Tread on another fid' if batch else ''} outstanding together, dotu={dotu}; <= {P} preemptions, <= 2 non-default choices at blocking points"})
     runs.append({"harness": "vxH19UfsWrite", "args": ["32", "8"], "files": UF, "preempt": P, "free_switches": -1, "race": True, "reach": ["done"], "timeout_s": 2400,
                  "bounds": f"Ufs (msize 32, 256-byte receive buffer): a Twrite executing while 8 msize-sized requests on other (unknown) fids arrive and wrap the receive buffer; <= {P} preemptions, deterministic successor at blocking points"})
-    runs.append({"harness": "vxH19Conns", "args": [], "files": KIT + ["c19_conns"], "preempt": P, "free_switches": 1, "race": True, "reach": ["done"], "timeout_s": 2400,
-                 "bounds": f"a second connection is opened, attached and dropped while the first has requests on two different fids in flight; <= {P} preemptions"})
+    runs.append({"harness": "vxH19Conns", "args": [], "files": KIT + ["c19_conns"], "preempt": 1, "free_switches": P, "race": True, "reach": ["done"], "timeout_s": 2400,
+                 "bounds": f"a second connection is opened, attached and dropped while the first has requests on two different fids in flight; <= 1 preemption, <= {P} non-default choices at blocking points (2 preemptions did not finish in 40 minutes)"})
     runs.append({"harness": "vxH03E2E", "args": ["2", "0", "0", "true"], "files": KIT + ["c03"], "preempt": P, "race": True, "reach": ["done"], "timeout_s": 2400,
                  "bounds": f"server framework with a scripted implementation: 2 concurrent requests, every completion order, <= {P} preemptions (workload of C03)"})
     runs.append({"harness": "vxH07", "args": ["0", "0", "0", "false", "false"], "files": KIT + ["c07"], "preempt": P, "race": True, "reach": [], "timeout_s": 2400,
                  "bounds": f"a Twalk and its Tflush interleaved in every way, <= {P} preemptions (workload of C07)"})
+    runs.append({"harness": "vxH19Users", "args": [], "files": KIT + ["c19_conns"], "preempt": min(P, 1), "free_switches": P, "race": True, "reach": ["done"], "timeout_s": 2400,
+                 "bounds": f"attaches with different uids on two connections at once, resolved through the library's own user pool (OsUsers), one uid new and the other new or known; <= {min(P, 1)} preemption, <= {P} non-default choices at blocking points"})
     runs += clnt
     return runs
-CL9 = ["api", "ref_wire", "kit_net", "kit_clnt", "c09"]
-w("C19", {"quick": c19(1, []), "thorough": c19(2, []), "witnesses": 2,
+CL9 = ["api", "ref_wire", "kit_clnt", "c09"]
+def c19clnt(P):
+    return [{"harness": "vxH09Rpc", "args": ["2", "4", "3", "3", "true", "false", "false"], "files": CL9, "preempt": P, "race": True, "reach": ["done"], "timeout_s": 2400,
+             "bounds": f"one client shared by 2 concurrent callers (Read, Write) + 1 follow-up call, replies in every order (matching R / Rerror), <= {P} preemptions (workload of C09)"}]
+w("C19", {"quick": c19(1, c19clnt(1)), "thorough": c19(2, c19clnt(2)), "witnesses": 2,
  "outside": ["races that need more than 2 preemptions or more than 3-4 concurrent requests", "races between two instructions of harness-owned state (exempt by construction)", "workloads the statement excludes: two non-walk requests on the same fid at once, Tversion in mid-session, dropping a connection with requests outstanding"],
  "assumptions": [SCHED, "a race is two conflicting accesses by library (non-harness) code that are unordered by the Go memory model's happens-before edges (go, channel send/receive/close, Mutex, atomics) in an explored schedule; RACE findings are confirmed natively by go test -race on the same workload"],
  "rewrite_os": True})
